@@ -96,6 +96,9 @@ def eval_ext(toks, state):
     if op == "setphos":
         vals = [int(x) for x in toks[2:]]
         mode = state.get("phosmode", 0)
+        if mode % 4 == 3 and not (len(vals) == 1 and mode % 3 == 0):
+            import numpy as np
+            vals = [np.int64(v) for v in vals]      # (only inside a list / tuple: the single-position form is documented for a plain int)
         state["phosmode"] = mode + 1
         if len(vals) == 1 and mode % 3 == 0:
             arg = vals[0]            # single int
